@@ -16,6 +16,10 @@ CHECKS = {
    technique="bounded-exhaustive enumeration of adversarial line sequences, level walks and byte strings under every decoder option combination; oracle: document or line-naming error, only the documented panic",
    text="All sequences of up to n lines over a structure-adversarial alphabet (HUSB/WIFE/CHIL/FAM/INDI/NAME/DATE x level 0-3), C02's walks and byte strings, plus parametric giants, x 4 option combinations; every run must return a document or an error 'line <n>: ...' naming the right line; only the documented 'indent is too large' panic is tolerated and only with AllowInvalidIndents off.",
    note="No native fuzzing (sampling is a different family). Giants are single cases, not a space."),
+ "C04": dict(engine="E3", category="exploration", design_ref="§4 C04",
+   technique="bounded-exhaustive enumeration of the documented DATE grammar (full field product plus near misses, all pairs as ranges) against an independent reference parser",
+   text="The product of 15 keyword spellings x letter case x 14 day classes x 23 month spellings (+ near misses) x 14 year classes x 6 spacings x trailing junk, and every ordered pair of 160 representative sentences under 8 between-words x 5 and-words, are parsed by the real code and by a table-driven reference parser; day/month/year/constraint of both ends, validity, canonical printing and print/parse fixpoint must agree.",
+   note="Trusts ref/date.go. Forms the documentation leaves open (extra leading zeros, year 0, 5-digit years) are judged for no-crash/stability only. Numeric fields are classes, except thorough which adds every calendar day."),
  "C05": dict(engine="E3", category="exploration", design_ref="§4 C05",
    technique="bounded-exhaustive enumeration of every calendar date against an own calendar reference model",
    text="Every day, month-year and year (quick: three 400-year blocks; thorough: all of 1..9999) is run through the real Date.Time/Years/IsBefore/IsAfter/Duration/Minimum/Maximum and compared with own proleptic-Gregorian arithmetic; exhaustive as the property's quantifier states.",
